@@ -128,9 +128,9 @@ func (fc *FnCtx) mapKeySort(mt *types.Map) string {
 func (fc *FnCtx) mapKeys(mt *types.Map) []keySort {
 	ks := fc.mapKeySort(mt)
 	name := "map|" + typeName(mt)
-	out := []keySort{{name + "|present", "(Array Int (Array " + ks + " Bool))", nil}, {name + "|len", "(Array Int (_ BitVec 64))", nil}}
+	out := []keySort{mkKS(name + "|present", "(Array Int (Array " + ks + " Bool))"), mkKS(name + "|len", "(Array Int (_ BitVec 64))")}
 	for _, l := range leavesOf(mt.Elem()) {
-		out = append(out, keySort{name + "|val" + l.Suffix, "(Array Int (Array " + ks + " " + l.Sort + "))", nil})
+		out = append(out, mkKS(name + "|val" + l.Suffix, "(Array Int (Array " + ks + " " + l.Sort + "))"))
 	}
 	return out
 }
@@ -352,7 +352,8 @@ func init() {
 	natives[yp+"AssertTruef"] = natives[yp+"AssertTrue"]
 	natives[yp+"Check"] = func(br *bodyRun, st *State, fn *ssa.Function, av []ssa.Value, args []Val, rt types.Type, x ssa.CallInstruction) Val {
 		e := args[0].(IfaceV)
-		br.fc.oblige(st, eq(e.Tag, "0"), br.prefix+br.fc.ordName("check", ""), "asserttrue", x.Pos(), "y.Check(err): err is nil")
+		br.fc.note("y.Check(err): the process exits when err != nil; execution continues only with err == nil")
+		br.fc.assume(st, eq(e.Tag, "0"))
 		return nil
 	}
 	natives[yp+"Wrapf"] = func(br *bodyRun, st *State, fn *ssa.Function, av []ssa.Value, args []Val, rt types.Type, x ssa.CallInstruction) Val {
@@ -408,7 +409,7 @@ var pureExternals = []string{
 	"(github.com/dgraph-io/badger/v4.Options).Warningf", "(github.com/dgraph-io/badger/v4.Options).Errorf",
 	"fmt.Sprintf", "fmt.Sprint", "fmt.Printf", "fmt.Println", "log.Printf", "log.Println",
 	"time.Now", "time.Since", "(time.Time).Unix", "(time.Time).Sub", "(time.Duration).Seconds",
-	"go.opentelemetry.io/*", "encoding/hex.Dump", "encoding/hex.EncodeToString",
+	"go.opentelemetry.io/*", "context.Background", "context.TODO", "encoding/hex.Dump", "encoding/hex.EncodeToString",
 	"(*expvar.Int).Add", "(*expvar.Map).Add",
 }
 
